@@ -204,6 +204,8 @@ var orderCases = []struct {
 	{"list search among dictionaries holding methods", "如何F？\n    输出 1\n令L = 【【甲 = F，乙 = 1】】\n输出 以L（包含：【甲 = F，乙 = 2】）", nil},
 	{"two modules exporting the same two names", "导入“库一”\n导入“库二”\n输出 1", map[string]string{"库一": "如何甲？\n    输出 1\n如何乙？\n    输出 2\n", "库二": "如何甲？\n    输出 3\n如何乙？\n    输出 4\n"}},
 	{"import cycle among three modules", "导入“库一”\n导入“库三”\n输出 1", map[string]string{"库一": "导入“库二”\n如何甲？\n    输出 1\n", "库二": "导入“库三”\n导入“库一”\n如何乙？\n    输出 2\n", "库三": "如何丙？\n    输出 3\n"}},
+	{"one library imported twice (two names)", "导入《@具》之取甲\n导入《@具》之取乙\n输出（取甲）+（取乙）", map[string]string{"占位": "令X = 1\n"}},
+	{"one library imported by the program and by a module", "导入《@具》\n导入“用具”\n输出（取乙）+（用）", map[string]string{"用具": "导入《@具》之取甲\n如何用？\n    输出（取甲）\n"}},
 	{"object with three properties displayed", "定义T：\n    其甲设为1\n    其乙设为2\n    其丙设为3\n令O = （新建T）\n输出 “{}” % 【O】", nil},
 }
 
@@ -235,8 +237,21 @@ func runModules(mainSrc string, mods map[string]string) (res r.Element, err erro
 	}
 	vm := r.InitVM(exec.GlobalValues)
 	vm.SetModuleCodeFinder(finder)
+	vm.LoadExternalLibs([]*r.Library{toolLibrary()})
 	res, err = exec.EvalMainModule(vm, program, r.ElementMap{})
 	return
+}
+
+// toolLibrary: a registered library 《@具》 with four functions.
+func toolLibrary() *r.Library {
+	lib := r.NewLibrary("@具")
+	for k, name := range []string{"取甲", "取乙"} {
+		v := float64(k + 1)
+		lib.RegisterFunction(name, value.NewFunction(func(receiver r.Element, params []r.Element) (r.Element, error) {
+			return value.NewNumber(v), nil
+		}))
+	}
+	return lib
 }
 
 // H_OutcomeStable: value or error message of the order cases under every map order.
